@@ -58,7 +58,14 @@ type c07TxStep struct {
 	Price    string
 	SignOK   bool
 	SubmitOK bool
+	// which of the texts a real node refuses a transaction with (index into c07RefusalTexts); the code must report
+	// the failure whatever the text says (round 7: a retry on "nonce too low" that ended in a nil error)
+	RefuseText int `json:",omitempty"`
 }
+
+var c07RefusalTexts = []string{"verif: scripted refusal", "nonce too low", "nonce too low: next nonce 7, tx nonce 3",
+	"replacement transaction underpriced", "already known", "transaction underpriced",
+	"insufficient funds for gas * price + value", "nonce too high", "exceeds block gas limit", "tx fee (1.00 ether) exceeds the configured cap (0.50 ether)"}
 
 type c07TxIn struct {
 	ChainID  uint64
@@ -250,7 +257,7 @@ func (c *c07Chain) answer(req *c01e2eReq) c01e2eResp {
 		}
 		c.raws = append(c.raws, o)
 		if !c.cur.SubmitOK {
-			return fail("verif: scripted refusal")
+			return fail(c07RefusalTexts[((c.cur.RefuseText%len(c07RefusalTexts))+len(c07RefusalTexts))%len(c07RefusalTexts)])
 		}
 		resp.Result = tx.Hash().Hex()
 	default:
@@ -511,6 +518,12 @@ func c07TxGenerate(r *rand.Rand) c07TxIn {
 		}
 		st.SignOK = r.Intn(12) != 0
 		st.SubmitOK = r.Intn(6) != 0
+		if !st.SubmitOK {
+			st.RefuseText = r.Intn(len(c07RefusalTexts))
+			if r.Intn(2) == 0 {
+				st.RefuseText = 1 + r.Intn(2) // the texts a well-meant retry is most likely keyed on
+			}
+		}
 		switch r.Intn(5) {
 		case 0, 1, 2:
 			b := c01GoodBid(r)
